@@ -483,6 +483,7 @@ class Engine:
                 a, kw = args()
             else:
                 a, kw = list(args), dict(kwargs or {})
+            ex.arg_stamp = _ALLOC[0]   # everything allocated so far (the arguments included) is caller-owned
             if setup:
                 setup(ex)
             try:
@@ -499,6 +500,11 @@ class Engine:
             if len(outcomes) > max_paths:
                 raise OutOfSubset("too many paths")
         return outcomes
+
+
+#: stores into caller-owned data containers (arrays, tables, record arrays that existed when the call under contract
+#: started), collected per obligation run; read by oblig._run_one
+ARG_DATA_WRITES = []
 
 
 class Frame:
@@ -636,6 +642,8 @@ class Exec:
         base = target
         while isinstance(base, ArrV) and base.view_of is not None:
             base = base.view_of[0]
+        if isinstance(base, (ArrV, TableV, RecArrV)) and stamp_of(base) <= getattr(self, "arg_stamp", -1):
+            ARG_DATA_WRITES.append(getattr(base, "name", None) or getattr(base, "srcname", None) or type(base).__name__)
         if stamp_of(base) <= self.entry_stamp:
             self.heap_writes += 1
             if getattr(base, "is_module_state", False) or id(base) in MODULE_STATE:
@@ -724,6 +732,10 @@ class Exec:
         try:
             for k, v in list(env.items()):
                 if isinstance(v, tuple) and len(v) == 2 and v[0] == "__default__":
+                    if isinstance(v[1], (ast.Call, ast.List, ast.Dict, ast.Set, ast.ListComp, ast.DictComp)):
+                        # Python evaluates a default ONCE, at definition: a mutable default is state shared by every call
+                        # that omits the argument.  Not modelled (a per-call evaluation would hide exactly that sharing).
+                        raise OutOfSubset(f"mutable default argument {k}={ast.unparse(v[1])} of {f.qualname}: state shared between calls")
                     env[k] = self.eval(v[1])
             if isinstance(f.node, ast.Lambda):
                 return self.eval(f.node.body)
@@ -742,6 +754,7 @@ class Exec:
         n0 = len(self.pc)
         while True:
             ex = Exec(self.eng, sub_trail, pc0=list(self.pc))
+            ex.arg_stamp = getattr(self, "arg_stamp", -1)
             ex.frames = list(self.frames)
             ex.fresh = self.fresh
             ex.hooks = self.hooks
@@ -1077,6 +1090,7 @@ class Exec:
         saved_env = dict(fr.env)
         while True:
             ex = Exec(self.eng, sub_trail, pc0=list(self.pc))
+            ex.arg_stamp = getattr(self, "arg_stamp", -1)
             ex.frames = list(self.frames)
             ex.fresh, ex.hooks, ex.ghost = self.fresh, self.hooks, self.ghost
             fr.env.clear()
